@@ -408,6 +408,26 @@ def cli_runs(ctx, rng, mismatches, sigs, samples):
                                    "failing_input": {"argv": spec["argv"], "exit": rc, "stdout": got[:20], "stderr": err[:200], "expected": lines[:20]}})
             elif len(samples) < 7:
                 samples.append({"argv": spec["argv"], "stdout": got[:4]})
+    # -t / -s only affect speed: on intervals long enough to be split among threads (>= 2e7) the output, including the
+    # order of printed k-tuplets, must be the one of the single-threaded run
+    def filt(out):
+        return [l for l in out.replace("\r", "\n").split("\n") if l.strip() and not re.match(r"^(Sieve size =|Threads =|Seconds:|\d+%$)", l.strip())]
+    base_sets = [["6e7", "-p4"], ["1e9", "1e9+5e7", "-p5", "-c3"], ["45000000", "-c123456"], ["3e7", "-p6", "--no-status"]]
+    if ctx.thorough:
+        base_sets += [["2e8", "-p4"], ["1e12", "-d", "6e7", "-p3", "-c2"]]
+    for base in base_sets:
+        rc0, o0, e0 = ps.run([exe] + base + ["-t1"], timeout=300)
+        ref = filt(o0)
+        for extra in (["-t2"], ["-t4"], ["--threads=16", "-s16"], ["-t3", "-s", "1024"]):
+            st["runs"] += 1
+            rc1, o1, e1 = ps.run([exe] + base + extra, timeout=300)
+            got = filt(o1)
+            sigs.add(("cli-threads", tuple(base[-1:]), tuple(extra)))
+            if rc0 != 0 or rc1 != rc0 or got != ref:
+                j = next((i for i in range(min(len(got), len(ref))) if got[i] != ref[i]), min(len(got), len(ref)))
+                mismatches.append({"key": "cli-threads", "what": "primesieve %s prints something else than with -t1 (first difference at line %d: %r vs %r; %d vs %d lines)" %
+                                   (" ".join(base + extra), j, got[j:j + 1], ref[j:j + 1], len(got), len(ref)),
+                                   "failing_input": {"argv": base + extra, "reference_argv": base + ["-t1"], "first_difference_line": j, "observed": got[j:j + 2], "expected": ref[j:j + 2]}})
     return st
 
 
